@@ -2149,6 +2149,12 @@ where
 
 impl<S, T> Drop for Client<S, T> {
     fn drop(&mut self) {
+        // A cancel request carries the key of the client it targets:
+        // it must not unregister that client's server.
+        if self.cancel_mode {
+            return;
+        }
+
         let mut guard = self.client_server_map.lock();
         guard.remove(&(self.process_id, self.secret_key));
         crate::vtrace!("client_drop", "pid" => self.process_id, "connected" => self.connected_to_server,
